@@ -29,15 +29,16 @@ def p_never(v):
 
 
 def p_bundle_id_scope_mismatch(v):
-    """F11b: the source document holds a bundle whose printed identifier does not denote
-    its URI in the document's own scope (only reachable through add_bundle with an
-    identifier whose prefix the document binds to another namespace)."""
+    """F11b: the source document holds two bundles whose identifiers print identically
+    although they denote different URIs (reachable only through add_bundle with an
+    identifier whose prefix means something else in the bundle than in the document);
+    the PROV-JSON writer then overwrites one bundle with the other."""
     sig = v.get("signature", [])
     if len(sig) < 3:
         return False
     if not (sig[2] == "bundle-identifiers" or sig[2].startswith("read-raised")):
         return False
-    return bool(v.get("facts", {}).get("bundle_id_scope_mismatch"))
+    return bool(v.get("facts", {}).get("bundle_keys_printed_identically"))
 
 
 def p_conflated_association(v):
